@@ -28,7 +28,7 @@ SPEC = dict(
     wall_quick=3000,
     legs=[
         Leg('regress', 'h_hostile', 'asan', opts={'mode': 'regress'}, quick=1, thorough=1, workers=1, leaks=True, cpu_budget=20, stall_wall=900, min_cases=1),
-        Leg('hostile', 'h_hostile', 'asan', opts={'mode': 'hostile', 'nmsg': 50}, quick=1280, thorough=64000, workers=16, leaks=True, cpu_budget=20, stall_wall=900),
+        Leg('hostile', 'h_hostile', 'asan', opts={'mode': 'hostile', 'nmsg': 50}, quick=1280, thorough=32000, workers=16, leaks=True, cpu_budget=20, stall_wall=900),
         Leg('deepnest', 'h_hostile', 'asan', opts={'mode': 'deepnest'}, quick=2, thorough=2, workers=2, cpu_budget=20, stall_wall=900, min_cases=0),
         Leg('regexbomb', 'h_hostile', 'asan', opts={'mode': 'regexbomb'}, quick=5, thorough=5, workers=5, cpu_budget=20, stall_wall=900, min_cases=0),
     ],
